@@ -154,6 +154,106 @@ def close_programs():
     return progs
 
 
+# ---------------------------------------------------------------- T8.single: + * and their reductions on non-negative data
+U32, U64 = 2.0 ** -24, 2.0 ** -53
+S_SCALARS = ["0.1", "3", "0.7", "2.5", "1.3"]
+S_VECTORS = ["[0.1 0.7 1.3]", "[1 2 3]", "[0.3 0.6 0.9]", "[2.2 0.05 7.7]"]
+S_LITS = ["2", "0.5", "3", "0.3"]
+
+
+def s_tree(rng, depth):
+    if depth == 0 or rng.random() < 0.2:
+        return ("v", rng.choice("ab")) if rng.random() < 0.75 else ("l", rng.choice(S_LITS))
+    r = rng.random()
+    if r < 0.3:
+        return (rng.choice(["+/", "*/"]), s_tree(rng, depth - 1))
+    return (rng.choice("+*"), s_tree(rng, depth - 1), s_tree(rng, depth - 1))
+
+
+def s_text(t):
+    if t[0] in "vl":
+        return t[1]
+    if len(t) == 2:
+        return t[0] + "(" + s_text(t[1]) + ")"
+    return "(" + s_text(t[1]) + ")" + t[0] + "(" + s_text(t[2]) + ")"
+
+
+def s_rk(t, shapes):
+    """(shape, rk) with shape None (scalar) or n (vector); rk as in coq/C08/Single.v: leaf 1, Add 1+max, Mul 1+ka+kb,
+    a reduction of n elements is the left fold of n-1 Add / Mul; None if the shapes do not fit"""
+    if t[0] == "v":
+        return shapes[t[1]], 1
+    if t[0] == "l":
+        return None, 1
+    if len(t) == 2:
+        r = s_rk(t[1], shapes)
+        if r is None:
+            return None
+        sh, k = r
+        if sh is None:
+            return None, k
+        if t[0] == "+/":
+            return None, k + (sh - 1)
+        return None, sh * k + (sh - 1)
+    a, b = s_rk(t[1], shapes), s_rk(t[2], shapes)
+    if a is None or b is None:
+        return None
+    (sa, ka), (sb, kb) = a, b
+    if sa is not None and sb is not None and sa != sb:
+        return None
+    sh = sa if sa is not None else sb
+    return sh, (1 + max(ka, kb) if t[0] == "+" else 1 + ka + kb)
+
+
+def single_programs(rng, tier):
+    out = []
+    n = 400 if tier == "quick" else 6000
+    while len(out) < n:
+        t = s_tree(rng, rng.choice([1, 2, 3]))
+        if t[0] in "vl":
+            continue
+        a = rng.choice(S_SCALARS + S_VECTORS + S_VECTORS)
+        b = rng.choice(S_SCALARS + S_VECTORS)
+        shapes = {"a": 3 if a.startswith("[") else None, "b": 3 if b.startswith("[") else None}
+        r = s_rk(t, shapes)
+        if r is None:
+            continue
+        out.append((["a::" + a, "b::" + b, s_text(t)], r[1]))
+    return out
+
+
+def within_single(va, vb, k):
+    """torch value vb against numpy value va for a program of the T8.single domain with rk = k: by
+    C08_single_precision_bound both lie within [(1-u)^k, (1+u)^k] of the exact value (u32 resp. u64)"""
+    lo = ((1 - U32) / (1 + U64)) ** k * (1 - 1e-15)
+    hi = ((1 + U32) / (1 - U64)) ** k * (1 + 1e-15)
+    if isinstance(va, list) and isinstance(vb, list):
+        if va and vb and va[0] == "l" and vb[0] == "l":
+            return len(va) == len(vb) and all(within_single(x, y, k) for x, y in zip(va[1:], vb[1:]))
+        if va and vb and va[0] == "i" and vb[0] == "i":
+            return va[1] == vb[1]
+        if va and vb and va[0] == "r" and vb[0] == "r":
+            x, y = _f(va[1]), _f(vb[1])
+            return x * lo <= y <= x * hi
+    return False
+
+
+def check_single(chk, items, rn, rt):
+    bad = None
+    for (prog, k), a, b in zip(items, rn, rt):
+        chk.count("evaluations")
+        chk.count("single_programs")
+        if a[0] != "ok" or b[0] != "ok":
+            chk.count("single_not_both_return")
+            continue
+        if within_single(parse_sx(a[1]), parse_sx(b[1]), k):
+            chk.count("single_within_bound")
+            chk.counters["single_max_rk"] = max(chk.counters.get("single_max_rk", 0), k)
+        elif bad is None:
+            bad = {"kind": "outside the proved single-precision interval (rk=%d)" % k, "program": prog, "numpy": a, "torch": b}
+    return bad
+
+
 def programs(rng, tier):
     progs = close_programs()
     kinds = list(BIND)
@@ -272,9 +372,19 @@ def check_accept(chk):
     return bad_prop, bad_corr
 
 
-def check_differential(chk, rng, tier):
+def check_both(chk, rng, tier):
+    """one pair of worker batches for the general differential and the T8.single family"""
     progs = programs(rng, tier)
-    rn, rt = run_both(progs)
+    items = single_programs(rng, tier)
+    rn, rt = run_both(progs + [p for p, _ in items])
+    n = len(progs)
+    bad = check_differential(chk, progs, rn[:n], rt[:n])
+    if bad is None:
+        bad = check_single(chk, items, rn[n:], rt[n:])
+    return bad
+
+
+def check_differential(chk, progs, rn, rt):
     bad = None
     seen = set()
     for prog, a, b in zip(progs, rn, rt):
@@ -340,14 +450,14 @@ def run(tier, replay=None):
         proof["broken"] = hits[0]
     bad_prop, bad_corr = check_accept(chk)
     gone = replay_findings(chk) if has_torch else []
-    bad = check_differential(chk, rng, tier) if has_torch else None
+    bad = check_both(chk, rng, tier) if has_torch else None
     if bad_prop is not None:
         chk.violation("a program built only from compilable operations is not accepted by a backend: %s (%s)"
                       % (bad_prop["expression"], bad_prop["kind"]), bad_prop)
     if bad is not None:
         chk.violation("numpy and torch backends disagree (%s): %s" % (bad["kind"], " ; ".join(bad["program"])), bad)
     if not chk.violations and (bad_corr is not None or gone or not proof["ok"]):
-        wide = check_differential(chk, random.Random(chk.seed + 1), "thorough" if tier == "quick" else tier) if has_torch else None
+        wide = check_both(chk, random.Random(chk.seed + 1), "thorough" if tier == "quick" else tier) if has_torch else None
         if wide is not None:
             chk.violation("numpy and torch backends disagree (%s): %s" % (wide["kind"], " ; ".join(wide["program"])), wide)
         elif bad_corr is not None:
